@@ -78,6 +78,12 @@ DWARF = [
 ]
 
 
+# the same traversal in cooked and in raw mode (files with partial units: the two modes list different units / DIEs)
+TWINS = [("unit", "raw unit"), ("entry (pos < 4)", "raw entry (pos < 4)"), ("unit root", "raw unit root"), ("[unit] length", "[raw unit] length"),
+         ("entry (pos < 3) child (pos < 2)", "raw entry (pos < 3) child (pos < 2)"), ("entry (pos < 4) parent", "raw entry (pos < 4) parent"),
+         ("unit (pos == 1) entry (pos < 3)", "raw unit (pos == 1) entry (pos < 3)"), ("entry ?root", "raw entry ?root")]
+
+
 class Exec:
     __slots__ = ("q", "s")
 
@@ -333,7 +339,8 @@ def replay(case):
     if case.get("inputs"):
         inputs = {k: ("-", v, None) for k, v in case["inputs"].items()}
     if voc == "full":
-        setup = ["open id=d1 path=" + drv.hx("/repo/tests/typedef.o"), "open id=d2 path=" + drv.hx("/repo/tests/nontrivial-types.o")]
+        f1, f2 = case.get("files", ["/repo/tests/typedef.o", "/repo/tests/nontrivial-types.o"])
+        setup = ["open id=d1 path=" + drv.hx(f1), "open id=d2 path=" + drv.hx(f2)]
         inputs = {"s1": ("d1", "", None), "s2": ("d2", "", None)}
     qs = sorted(set(e[1] for e in case["execs"]))
     ins, ref = prepare(b, voc, setup, qs, inputs)
@@ -409,6 +416,25 @@ def main(ctx):
             ALLSTATES.update(r["states"])
             for key, what, case in r["bad"]:
                 ctx.violation(key, what, case)
+    # ---- raw / cooked twins on inputs with partial units: one Dwarf value enumerated in both modes by different executions
+    g1, g2 = "/repo/tests/dwz-partial", "/repo/tests/a1.out"
+    if os.path.exists(g1) and os.path.exists(g2):
+        setup = ["open id=d1 path=" + drv.hx(g1), "open id=d2 path=" + drv.hx(g2)]
+        tq = [q for pair in TWINS for q in pair]
+        tins, tref = prepare(b, "full", setup, tq, {"s1": ("d1", "", None), "s2": ("d2", "", None)})
+        ttasks = []
+        for a, c in TWINS:
+            ttasks += [(a, [c], 1), (c, [a], 1)]
+        if thorough:
+            ttasks = split_tasks(ttasks, tref, thorough, "full", per_task=3000)
+        for r in common.pmap(ctx, _worker, ttasks, b, "full", setup=setup, extra={"ref": tref, "inputs": tins, "voc": "full", "thorough": thorough}, timeout=120):
+            ctx.count("histories", r["histories"])
+            ctx.count("histories_dwarf_twins", r["histories"])
+            ctx.count("api_steps", r["steps"])
+            ALLSTATES.update(r["states"])
+            for key, what, case in r["bad"]:
+                case["files"] = [g1, g2]
+                ctx.violation(key, what, case)
     ctx.sample({"query": CORE[2], "executions": ["A on s1", "A on s1", "A on s2"], "history": "E0 P0 E1 P1 P0 D0 P1 P1 P1 D1 E2 P2 ... D2",
                 "oracle": "k-th pull of each execution = k-th result of a fresh parse-and-run"})
     cov = {
@@ -421,7 +447,7 @@ def main(ctx):
                 "abstract state = per execution (not started | live | destroyed, pulls done); every history with at most d deviations from "
                 "'run each to exhaustion in turn' is enumerated (no state merging: every history is executed); distinct = distinct history",
         "bounds": {"deviations_three_executions": dmax, "deviations_two_executions": dmax + 1, "deviations_dwarf": "1 (three executions) / 2 (two)", "live_result_sets": 3,
-                   "core_queries": len(CORE), "dwarf_queries": len(DWARF), "extra_pulls_after_end": 1},
+                   "core_queries": len(CORE), "dwarf_queries": len(DWARF), "raw_cooked_twin_queries_on_dwz_inputs": len(TWINS) * 2, "extra_pulls_after_end": 1},
     }
     return ctx.finish("model_checking", cov, [
         "the reference sequence of each (query text, input) comes from a fresh process that parses and runs it once",
